@@ -121,6 +121,11 @@ def oracle_exe():
     ok, log = C.coq_make(['ExtractLogical.vo'])
     if not ok:
         raise C.BuildFailure('oracle extraction failed:\n' + log[-3000:])
+    if not os.path.isfile(os.path.join(C.COQ, 'c20_model.ml')):     # .vo up to date but the extracted file was removed
+        with C.Lock('coq'):
+            rc, log = C.sh(['coqc', '-Q', '.', 'Pnc', '-w', '-all', 'ExtractLogical.v'], cwd=C.COQ, timeout=600)
+        if rc != 0:
+            raise C.BuildFailure('oracle extraction failed:\n' + log[-3000:])
     with C.Lock('ocaml-c20'):
         if os.path.isfile(exe):
             return exe
